@@ -299,8 +299,8 @@ def c20():
         "props_file": "Props/C20.v",
         "theorems": ["C20_reader_safe", "C20_monotone", "C20_final_value", "C20_inplace_refuted",
                      "C20_nonvacuous", "C20_two_readers_safe", "C20_two_readers_monotone",
-                     "C20_published_never_disappears"],
-        "model_files": ["Model/Monitor.v"],
+                     "C20_published_never_disappears", "C20_source_tie_update_cond"],
+        "model_files": ["Model/Monitor.v", "Gen/GMon.v", "Proofs/GenTieMon.v"],
         "suites": [suite_monitor.suite_monitor, suite_monitor.suite_monitor_interleave],
         "search": suite_monitor.search_c20,
         "replay": suite_monitor.replay_c20,
@@ -425,8 +425,9 @@ def c14():
         "props_file": "Props/C14.v",
         "theorems": ["C14_rerun_equals_fresh", "C14_rerun_frame", "C14_globs_are_purged", "C14_cleanup",
                      "C14_no_partial_final", "C14_run_is_writes", "C14_failed_run_no_final",
-                     "C14_nonvacuous", "C14_instance_not_trivial"],
-        "model_files": ["Model/Multiround.v", "Gen/GMr.v", "Proofs/GenTieMr.v"],
+                     "C14_nonvacuous", "C14_instance_not_trivial", "C14_source_tie_purge",
+                     "C14_source_tie_cleanup", "C14_source_tie_publish", "C14_source_tie_publish_names"],
+        "model_files": ["Model/Multiround.v", "Gen/GMr.v", "Proofs/GenTieMr.v", "Gen/GMrDel.v", "Proofs/GenTieMrDel.v"],
         "suites": [suite_mr.suite_crash, suite_mr.suite_mr_files, __import__('suite_numpysem').suite_numpysem],
         "search": suite_mr.search_mr("C14"),
         "replay": suite_mr.replay_c14,
@@ -450,7 +451,8 @@ def c05():
     return {
         "props_file": "Props/C05.v",
         "theorems": ["C05_partition_and_centroids", "C05_pairs_aligned", "C05_handed_over",
-                     "C05_any_directory", "C05_nonvacuous", "C05_centroids_are_majority"],
+                     "C05_any_directory", "C05_nonvacuous", "C05_centroids_are_majority",
+                     "C05_source_tie_names", "C05_source_tie_globs"],
         "model_files": ["Model/Multiround.v", "Gen/GMr.v", "Proofs/GenTieMr.v"],
         "suites": [suite_mr.suite_mr_files],
         "search": suite_mr.search_mr("C05"),
